@@ -68,6 +68,18 @@ def gen_model(rng: Prng, n: int) -> dict:
         # integer lattice coordinates: exact coincidences and zero-length segments are possible
         for k in "xyz":
             t[k] = [float(rng.randint(-3, 3)) for _ in range(n)]
+    elif rng.chance(0.15):
+        # decimal grid: every node one step along a coordinate axis from its parent, the step a decimal fraction
+        # (0.7, 0.35, 0.1, 1.5, ...) - branch lengths are then exact multiples of the usual spacings, up to float noise
+        t["grid"] = True
+        step = rng.choice([0.5, 0.5, 1.5, 0.25, 3.5, 1.0, 0.7, 10.5])  # dyadic steps: lengths exact in float32, so length/0.7, /0.1, /0.3 land within ulps of an integer
+        for k in "xyz":
+            t[k] = [0.0] * n
+        for i in range(1, n):
+            q = t["pid"][i]
+            ax = "xyz"[rng.below(3)] if rng.chance(0.3) else "x"
+            for k in "xyz":
+                t[k][i] = t[k][q] + (step if k == ax else 0.0)
     elif rng.chance(0.12):
         # coincident points: whole branches of zero length
         for k in "xyz":
@@ -78,8 +90,10 @@ def gen_model(rng: Prng, n: int) -> dict:
         inv = [0] * n
         for old, new in enumerate(perm):
             inv[new] = old
-        t2 = {k: [t[k][inv[j]] for j in range(n)] for k in t}
+        t2 = {k: [t[k][inv[j]] for j in range(n)] for k in t if k != "grid"}
         t2["pid"] = [(-1 if t["pid"][inv[j]] == -1 else perm[t["pid"][inv[j]]]) for j in range(n)]
+        if t.get("grid"):
+            t2["grid"] = True
         t = t2
     return t
 
@@ -107,14 +121,16 @@ def gen_transform_spec(rng: Prng, depth: int = 0) -> dict:
     if kind == "smooth":
         return {"op": kind, "w": rng.choice([1, 2, 3, 5, 9])}
     if kind == "resample":
-        return {"op": kind, "d": rng.choice([0.5, 1.0, 3.0, 10.0, 50.0, 1000.0])}
+        return {"op": kind, "d": rng.choice([0.5, 1.0, 3.0, 10.0, 50.0, 1000.0, 0.7, 0.35, 0.1, 0.3, 2.1]),
+                "adjust_last_gap": rng.chance(0.6)}
     if kind == "cut_type":
         return {"op": kind, "node": rng.below(64)}
     if kind == "cut_order":
         return {"op": kind, "order": rng.randint(1, 4)}
     if kind == "short_tip":
         return {"op": kind, "thre": rng.choice([0.0, 1.0, 5.0, 20.0, 80.0, 1e9]), "cb": rng.chance(0.3)}
-    return {"op": "transforms", "seq": [gen_transform_spec(rng, depth + 1) for _ in range(rng.randint(1, 4))]}
+    return {"op": "transforms", "seq": [gen_transform_spec(rng, depth + 1) for _ in range(rng.randint(1, 4))],
+            "identity_first": rng.chance(0.25)}
 
 
 def gen_step(rng: Prng) -> dict:
@@ -156,6 +172,15 @@ def generate(rng: Prng, tier: str) -> dict:
     big = 40 if tier == "quick" else 60
     trees = [gen_model(w, w.choice([1, 2, 3, 4, 5, 7, 10, 16, 25, big])) for _ in range(n_trees)]
     steps = [gen_step(w) for _ in range(w.randint(2, 14))]
+    grid = any(t.pop("grid", False) for t in trees)
+    if grid:
+        # trees on a decimal grid are resampled at spacings their branch lengths are (noisy) multiples of
+        gs = rng.stream("grid")
+        for st in steps:
+            if st.get("k") == "apply" and st.get("op") == "transform" and gs.chance(0.8):
+                st["spec"] = {"op": "resample", "d": gs.choice([0.1, 0.3, 0.7, 0.35, 0.5, 0.05]), "adjust_last_gap": gs.chance(0.4)}
+                if gs.chance(0.5):
+                    st["t"] = gs.below(len(trees))  # one of the initial (grid) trees rather than a derived one
     rp = rng.stream("repeat")
     for i, st in enumerate(steps):
         # the SAME transform (same object: transforms are cached by their specification) applied again, to the newest
@@ -193,6 +218,8 @@ def make_transform(spec: dict, tree, cache: dict):
                 seq.append(t)
         if not seq:
             return None
+        if spec.get("identity_first"):
+            seq = [T.Identity()] + seq  # the first step hands its argument on untouched; the pipeline as a whole must still copy
         # Normalizer divides by the column maximum and may produce non-finite coordinates, which are not
         # an admissible input for the geometric steps after it: inside a pipeline it is only kept last
         seq = [t for t in seq if not isinstance(t, T.Normalizer)] + [t for t in seq if isinstance(t, T.Normalizer)][:1]
@@ -238,7 +265,7 @@ def make_transform(spec: dict, tree, cache: dict):
     elif op == "smooth":
         obj = T.TreeSmoother(spec["w"])
     elif op == "resample":
-        obj = T.IsometricResampler(spec["d"])
+        obj = T.IsometricResampler(spec["d"], adjust_last_gap=spec.get("adjust_last_gap", True))
     elif op == "cut_order":
         obj = T.CutByFurcationOrder(spec["order"])
     elif op == "short_tip":
@@ -280,12 +307,13 @@ def apply_op(step: dict, pool: list, cache: dict):
             op = "sort_tree"
     if op == "sort_tree":
         return "sort_tree", [ti], lambda: sort_tree(tree)
+    om = [None, None, {}, []][(step.get("n", 0) + len(step.get("rm", [])) + step["t"]) % 4]  # out_mapping: none / dict / list
     if op == "get_subtree":
         k = step["n"] % n
-        return "get_subtree", [ti], lambda: get_subtree(tree, k)
+        return "get_subtree", [ti], lambda: get_subtree(tree, k) if om is None else get_subtree(tree, k, out_mapping=om)
     if op == "to_subtree":
         rm = removal_set(step["rm"], n)
-        return "to_subtree", [ti], lambda: to_subtree(tree, rm)
+        return "to_subtree", [ti], lambda: to_subtree(tree, rm) if om is None else to_subtree(tree, rm, out_mapping=om)
     if op == "cut_enter":
         rm = set(removal_set(step["rm"], n))
         return "cut_tree_enter", [ti], lambda: cut_tree(tree, enter=lambda nd, p: ((p or 0) + 1, int(nd.id) in rm))
